@@ -360,7 +360,7 @@ func (c *cluster) step(st h.Step) (h.Step, map[string]interface{}) {
 		}
 		c.ml[n][m] = true
 		c.ml[m][n] = true
-	case "sync", "quiet":
+	case "sync", "quiet", "synced":
 	default:
 		h.Die("unknown action %q", st.A())
 	}
@@ -368,7 +368,7 @@ func (c *cluster) step(st h.Step) (h.Step, map[string]interface{}) {
 }
 
 // closure: the sync phase, executed for real until a whole round changes nothing.
-func (c *cluster) closure(emit func(h.Step)) bool {
+func (c *cluster) closure(emit func(h.Step), deliver bool) bool {
 	nn := len(c.nodes)
 	// views: statuses and lists (status times keep growing through push/pull of left members)
 	fingerprint := func() string {
@@ -435,7 +435,7 @@ func (c *cluster) closure(emit func(h.Step)) bool {
 				continue
 			}
 			for _, m := range msgs {
-				if m[0] == 9 {
+				if m[0] == 9 || !deliver {
 					continue
 				}
 				do(h.Step{"a": "deliver", "n": n, "ty": m[0], "x": m[1], "lt": m[2], "prune": m[3], "w": 0})
@@ -483,7 +483,7 @@ func main() {
 		}
 		synced := false
 		for _, st := range s.Steps {
-			if st.A() == "quiet" {
+			if st.A() == "quiet" || st.A() == "synced" {
 				continue
 			}
 			if st.A() == "sync" {
@@ -494,7 +494,11 @@ func main() {
 		if !synced {
 			emit(h.Step{"a": "sync"})
 		}
-		if c.closure(emit) {
+		// first with every undelivered gossip message lost for good (state sync only), then with everything delivered
+		if c.closure(emit, false) {
+			emit(h.Step{"a": "synced"})
+		}
+		if c.closure(emit, true) {
 			emit(h.Step{"a": "quiet"})
 		} else {
 			notQuiet++
